@@ -128,6 +128,9 @@ def _bases(sp, rng):
     yield 'Huber', lambda: S.Huber(sp, 0.3), ('c1',)
     yield 'Box', lambda: S.IndicatorBox(sp, -0.5, 0.8), ('indicator',)
     yield 'QuadV', lambda: S.QuadraticForm(vector=rand_el(sp, rng), constant=0.5), ('smooth',)
+    if not util.is_pspace(sp):
+        # a linear functional after a non-linear operator (no proximal / conjugate offered: values and gradients only)
+        yield 'LinOfP2', lambda: S.QuadraticForm(vector=rand_el(sp, rng)) * odl.PowerOperator(sp, 2), ('smooth', 'nolip')
 
 
 def _wrappers(sp, rng):
@@ -174,7 +177,7 @@ def composed(sp, rng, n, depth=(2, 3), pairs=()):
         ws = _wrappers(sp, rng)
         if how != 'random':
             # one base with a Lipschitz gradient and one without, per ordered wrapper pair
-            pool = [b for b in bases if (b[0] in ('L2sq', 'Huber', 'QuadV')) == (how == 'pair-smooth')]
+            pool = [b for b in bases if (b[0] in ('L2sq', 'Huber', 'QuadV', 'LinOfP2')) == (how == 'pair-smooth')]
             bname, bthunk, tags = pool[int(rng.integers(len(pool)))]
             chain = [ws[PAIR_KINDS[k // len(PAIR_KINDS)]](), ws[PAIR_KINDS[k % len(PAIR_KINDS)]]()]
         else:
